@@ -7,6 +7,7 @@ PROP = dict(
              timeout=dict(quick=600, thorough=2400)),
         dict(module="MCDocsMW", cfg=dict(quick="MCDocsMW_deep_quick.cfg", thorough="MCDocsMW_deep_thorough.cfg"),
              timeout=dict(quick=600, thorough=2400)),
+        dict(module="MCDocsMW", cfg="MCDocsMW_mutant_escapedroute.cfg", expect_violation="RoutingHolds", timeout=300),
         dict(module="MCDocsMW", cfg="MCDocsMW_asbuilt_d13.cfg", expect_violation="EscapingHolds", timeout=300),
     ],
     level_text="DocsMW models path.Clean/Join/Split, the option defaulting of Spec, Redoc, RapiDoc, SwaggerUI and the OAuth2 callback, "
@@ -25,7 +26,10 @@ PROP = dict(
     trace=dict(module="TraceDocsMW", cfg="TraceDocsMW.cfg"),
     rule="case = one configuration (kind of middleware or API-handler flavour, base path, path, document, spec URL shape, OAuth callback "
          "URL, with/without next, default/custom template, option values with HTML metacharacters) + requests around every document "
-         "path (exact, trailing slash, dot segments, prefixes, extensions, escapes, other methods, bodies) and random ones. "
+         "path (exact, trailing slash, dot segments, prefixes, extensions, escapes, other methods, bodies) and random ones; spec URLs "
+         "with characters that URLs percent-encode (spaces, non-ASCII; given raw or encoded); multi-instance cases: 2-4 middlewares / "
+         "API handlers built one after the other in one process and all alive, requested in a shuffled order, each judged against "
+         "its own configuration. "
          "Non-trivial: some request was answered by a document handler and some was passed on; distinct by hash of the case.",
     assumptions=COMMON_ASSUME + [
         "for the API-handler flavours the description's basePath starts with '/'; the claim about the spec location covers SpecURLs that are "
